@@ -4,6 +4,7 @@
 From Coq Require Import ZArith List QArith Qcanon Bool Permutation.
 From SG Require Import Base.QcUtil Model.DataSet Proofs.DataSetVec Proofs.DataSetScale Proofs.DataSetRevert Proofs.DataSetMove
   Proofs.DataSetRevertPerm Proofs.DataSetWitness.
+From SG Require Import Model.DataSetOff Proofs.DataSetTrack Proofs.DataSetOffP Proofs.DataSetHistory Proofs.DataSetDerived.
 Import ListNotations.
 Open Scope Qc_scope.
 
@@ -180,4 +181,191 @@ Proof.
   do 2 eexists. split; [vm_compute; reflexivity|]. split; [repeat constructor; simpl; intuition discriminate|].
   split; [vm_compute; reflexivity|]. split; [vm_compute; reflexivity|].
   eexists. split; [vm_compute; reflexivity|]. vm_compute. discriminate.
+Qed.
+
+
+(* ==================================================================================================================
+   Deepening round.  (A) the code as found: exact behaviour of revert_scaling on data sets whose membership changed;
+   (B) the proposed repairs (Model/DataSetOff.v: accumulated offset + comparison of the accumulated maps in concatenate):
+   the property's revert clause and refusal clause hold for EVERY history on a store of data sets; (C) remove_labels.
+   ================================================================================================================== *)
+
+(* ---- (A) every sample-moving operation of the class acts on the rows by positions and labels only ("natural": it commutes with
+   any map on the samples and hands out only samples that were there), and the derived data sets carry the attributes of their source *)
+Theorem C18_moving_operations_are_natural :
+  (forall m k, natural_on m (firstn k) /\ natural_on m (skipn k)) /\
+  (forall m (p : Z -> bool), natural_on m (filter (fun s => p (snd s)))) /\
+  (forall m ix, Forall (fun i => (i < m)%nat) ix -> natural_on m (pick ix)) /\
+  (forall m idx, idx_valid idx m = true -> natural_on m (swap_loop dflt_sample 0 idx)) /\
+  (forall p d, split_pieces p d =
+     (with_attrs d (firstn (split_index p (length (rows d))) (rows d)), with_attrs d (skipn (split_index p (length (rows d))) (rows d)))) /\
+  (forall d, split_labels d = map (fun j => with_attrs d (label_part j (rows d))) (distinct_labels (rows d))) /\
+  (forall d, split_without_labels d =
+     (with_attrs d (label_part (-1)%Z (rows d)), with_attrs d (filter (fun s => Z.leb 0 (snd s)) (rows d)))) /\
+  (forall v idx d d' r, remove_samples v idx d = (d', Some r) ->
+     exists ni keep, Forall (fun i => (i < length (rows d))%nat) ni /\ Forall (fun i => (i < length (rows d))%nat) keep /\
+       d' = set_rows d (pick keep (rows d)) /\ (idx <> [] -> r = with_attrs d (pick ni (rows d)))).
+Proof.
+  split; [intros m k; split; [apply natural_firstn | apply natural_skipn]|].
+  split; [exact natural_filter_label|]. split; [exact natural_pick|]. split; [exact natural_swap_loop|].
+  split; [exact split_pieces_form|]. split; [exact split_labels_form|]. split; [exact split_without_labels_form | exact remove_samples_form].
+Qed.
+Print Assumptions C18_moving_operations_are_natural.
+
+(* revert_scaling (code as found) on ANY data set derived by a natural operation g (a split piece, the removed or the remaining samples
+   of remove_samples, a shuffled or front-moved set ...) from a set that went through a first/overriding scaling and ANY history of
+   non-overriding scalings: it succeeds and returns the derived original samples SHIFTED by
+   (per-dimension minimum of the whole original set) - (per-dimension minimum of the derived original samples);
+   it restores them exactly iff these minima agree (e.g. the piece still holds a minimum-attaining sample of every dimension - which is
+   what Classification's move_boundaries_to_front before split_pieces ensures for the learning piece).
+   This is the exact form of the known finding C18-revert-on-subset (the refutation witness C18_revert_after_split_refuted is an instance). *)
+Theorem C18_revert_on_derived_set : forall d0 ov o1 ops g, wf d0 -> scaled d0 = false \/ ov = true ->
+  op_ok (ddim d0) o1 -> Forall (op_ok (ddim d0)) ops ->
+  natural_on (length (rows d0)) g -> g (rows d0) <> [] ->
+  exists d1 d2 p' m0 mR,
+    apply_op ov o1 d0 = (d1, false) /\ apply_ops ops d1 = (d2, false) /\
+    data_min (values d0) = Some m0 /\ data_min (map fst (g (rows d0))) = Some mR /\
+    revert_scaling (with_attrs d2 (g (rows d2))) = (p', false) /\
+    rows p' = map_rows (fun r => vadd r (vsub m0 mR)) (g (rows d0)) /\ cleared p' /\
+    (rows p' = g (rows d0) <-> m0 = mR).
+Proof. exact revert_on_derived. Qed.
+Print Assumptions C18_revert_on_derived_set.
+
+(* the same at the level of the tracking invariant (any further non-overriding scalings on the derived set are covered by the bstep lemmas):
+   d is the affine image of a reference list R under its accumulated factor; then revert_scaling gives R shifted by
+   (_original_min - column minimum of R) *)
+Theorem C18_revert_of_tracked_set : forall n d R fv cv om mR, InvB n d R fv cv -> R <> [] ->
+  omin d = Some om -> length om = n -> data_min (map fst R) = Some mR ->
+  exists d3, revert_scaling d = (d3, false) /\ rows d3 = map_rows (fun r => vadd r (vsub om mR)) R /\ cleared d3.
+Proof. exact revert_under_invb. Qed.
+Print Assumptions C18_revert_of_tracked_set.
+
+(* ---- (B) the repaired class (fixes/C18-revert-accumulated-offset.patch, fixes/C18-concatenate-refuses-different-maps.patch) ------
+   the extended model with the repairs switched off is the model of the first release *)
+Theorem C18_extended_model_as_found : forall d,
+  (forall lo hi ov, scale_range_o false lo hi ov d = (let '(b, e) := scale_range lo hi ov (base d) in (lift d b, e))) /\
+  (forall a ov, scale_factor_o false a ov d = (let '(b, e) := scale_factor a ov (base d) in (lift d b, e))) /\
+  (forall a ov, shift_value_o false a ov d = (let '(b, e) := shift_value a ov (base d) in (lift d b, e))) /\
+  revert_o false d = (let '(b, e) := revert_scaling (base d) in (lift d b, e)) /\
+  (forall v b, v_refuse v = false -> concatenate_o v d b =
+     match concatenate (v_base v) (base d) (base b) with CNew r => CNewO (lift d r) | CSelf => CSelfO | COther => COtherO | CRaise => CRaiseO end).
+Proof.
+  intro d. split; [intros lo hi ov; unfold scale_range_o; destruct (scale_range lo hi ov (base d)) as [b e]; rewrite orb_true_r; reflexivity|].
+  split; [intros a ov; unfold scale_factor_o; destruct (scale_factor a ov (base d)) as [b e]; rewrite orb_true_r; reflexivity|].
+  split; [intros a ov; unfold shift_value_o; destruct (shift_value a ov (base d)) as [b e]; rewrite orb_true_r; reflexivity|].
+  split; [reflexivity|]. intros v b Hv. unfold concatenate_o. rewrite Hv. reflexivity.
+Qed.
+Print Assumptions C18_extended_model_as_found.
+
+(* the machine: tstep executes one DataSet operation on a store and moves the ghost reference lists along; trun a whole history *)
+(* a fresh rectangular data set is tracked by its own rows *)
+Theorem C18_repaired_fresh_tracked : forall r, Forall (fun s => length (fst s) = dim_of r) r -> (r <> [] -> dim_of r <> 0%nat) ->
+  Tracked (fresh_o r, r).
+Proof. exact fresh_tracked. Qed.
+
+(* EVERY admissible history (any operations on any handles, raising or not, with and without override; excluded: zero scaling factors and -
+   unless concatenate refuses them itself - concatenations of non-empty sets with DIFFERENT accumulated maps, i.e. exactly the situation of
+   the known finding C18-concatenate-ignores-other-scaling) keeps every data set of the store tracked:
+   unscaled = its reference list; scaled = affine image of it under the accumulated (factor, offset).
+   This is the statement for the FIRST repair alone (revert with accumulated offset). *)
+Theorem C18_repaired_history_tracked : forall v ops st, hist_adm v st ops -> Forall Tracked st -> Forall Tracked (trun v st ops).
+Proof. intros v ops st. exact (history_tracked v ops st). Qed.
+
+(* with the second repair (concatenate compares the accumulated maps) no side condition on concatenate is left *)
+Theorem C18_repaired_history_tracked_refusing : forall v ops, v_refuse v = true -> Forall sop_ok ops ->
+  forall st, Forall Tracked st -> Forall Tracked (trun v st ops).
+Proof. exact history_tracked_refusing. Qed.
+
+(* ... hence every successful revert_scaling, at any point of any history, returns EXACTLY the reference list: the samples (with their
+   labels) as they were before the first scaling since the last overriding rescale, moved along by the sample-moving operations
+   (split pieces, removed / remaining samples, concatenations, copies included) - and clears the scaling attributes *)
+Theorem C18_repaired_revert_restores_in_any_history : forall d R d', Tracked (d, R) -> revert_o true d = (d', false) ->
+  rows (base d') = R /\ cleared (base d') /\ soff d' = FNone.
+Proof. exact tracked_revert_restores. Qed.
+
+(* the ghost reference lists are pure bookkeeping of the statement: they never influence the data sets *)
+Theorem C18_repaired_ghost_erasure : forall v (st st' : list tds) o, map fst st = map fst st' ->
+  map fst (tstep v st o) = map fst (tstep v st' o).
+Proof. exact tstep_erasure. Qed.
+
+(* the refusal clause holds: a non-empty data set with another accumulated map (or another scaled flag) is never joined *)
+Theorem C18_repaired_concatenate_refuses_different_maps : forall v a b, v_refuse v = true -> is_empty (base b) = false ->
+  same_affine a b = false -> forall r, concatenate_o v a b <> CNewO r.
+Proof. exact concatenate_refuses_different_maps. Qed.
+
+(* ... and revert_scaling restores the reference list of a scaled tracked set exactly, whatever its membership *)
+Theorem C18_repaired_revert_restores : forall n d R fv cv, InvO n d R fv cv -> R <> [] ->
+  exists d3, revert_o true d = (d3, false) /\ rows (base d3) = R /\ cleared (base d3) /\ soff d3 = FNone.
+Proof. exact revert_o_restores. Qed.
+Print Assumptions C18_repaired_fresh_tracked.
+Print Assumptions C18_repaired_history_tracked.
+Print Assumptions C18_repaired_history_tracked_refusing.
+Print Assumptions C18_repaired_revert_restores_in_any_history.
+Print Assumptions C18_repaired_ghost_erasure.
+Print Assumptions C18_repaired_concatenate_refuses_different_maps.
+Print Assumptions C18_repaired_revert_restores.
+
+(* ---- (C) remove_labels (any admissible or inadmissible index list): the multiset of samples, the scaling attributes and _dim stay *)
+Theorem C18_remove_labels_keeps_samples : forall p idx d, Forall (fun s => (-1 <= snd s)%Z) (rows d) ->
+  Permutation (map fst (rows (remove_labels p idx d))) (map fst (rows d)) /\ attrs (remove_labels p idx d) = attrs d /\
+  ddim (remove_labels p idx d) = ddim d.
+Proof. exact remove_labels_keeps_samples. Qed.
+Print Assumptions C18_remove_labels_keeps_samples.
+
+(* ---- non-vacuity ------------------------------------------------------------------------------------------------ *)
+Definition strip (l : list sample) := map (fun s => (map this (fst s), snd s)) l.
+
+(* the history of the known finding (scale 4 samples to (0,1), split in halves, scale the second half by -2, revert it) on the repaired
+   model: admissible, from a tracked store, and the second half comes back exactly (contrast: C18_revert_after_split_refuted) *)
+Example C18_nonvacuous_repaired_history :
+  let st0 := [(fresh_o (rows wit_d0), rows wit_d0)] in
+  let ops := [SRange 0 0 1 false; SSplitPieces 0 Qchalf; SFactor 2 (AScalar (- Qc2)) false; SMbf 2 [1; 0]%nat; SRevert 2] in
+  Forall Tracked st0 /\ Forall sop_ok ops /\ hist_adm (mkV2 repaired true false) st0 ops /\
+  match nth_error (trun repaired2 st0 ops) 2 with
+  | Some (d, R) => trun (mkV2 repaired true false) st0 ops = trun repaired2 st0 ops /\
+                   scaled (base d) = false /\ strip (rows (base d)) = strip R /\
+                   strip R = strip (swap_loop dflt_sample 0 [1; 0]%nat (skipn 2 (rows wit_d0))) /\ length R = 2%nat
+  | None => False
+  end.
+Proof.
+  cbv zeta. split.
+  - constructor; [|constructor]. apply fresh_tracked; [repeat constructor | intros _; vm_compute; discriminate].
+  - split; [repeat constructor; vm_compute; discriminate|].
+    split; [cbn [hist_adm]; repeat split; try exact I; vm_compute; discriminate|]. vm_compute. repeat split; reflexivity.
+Qed.
+
+(* the characterisation (A) is not vacuous and the shift is not zero: second half of wit_d0 *)
+Example C18_nonvacuous_derived :
+  natural_on (length (rows wit_d0)) (skipn 2) /\ skipn 2 (rows wit_d0) <> [] /\
+  exists m0 mR, data_min (values wit_d0) = Some m0 /\ data_min (map fst (skipn 2 (rows wit_d0))) = Some mR /\ m0 <> mR.
+Proof.
+  split; [apply natural_skipn|]. split; [vm_compute; discriminate|].
+  do 2 eexists. split; [vm_compute; reflexivity|]. split; [vm_compute; reflexivity|]. vm_compute. discriminate.
+Qed.
+
+(* a refused concatenation: range-scaled set with an unscaled one (accepted by the code as found: C18_concatenate_refuses_different_scaling_refuted) *)
+Example C18_nonvacuous_refusal :
+  is_empty wit_b = false /\ same_affine (mkDSO wit_a (FArr [0; Qchalf - Qc2 * Qchalf * Qchalf])) (mkDSO wit_b FNone) = false /\
+  concatenate_o repaired2 (mkDSO wit_a (FArr [0; 0])) (mkDSO wit_b FNone) = CRaiseO.
+Proof. split; [reflexivity|]. split; vm_compute; reflexivity. Qed.
+
+(* a history with a concatenation that is admissible WITHOUT the second repair (two pieces of one lineage, same accumulated map):
+   the joined set (second half ++ first half) is restored exactly *)
+Example C18_nonvacuous_repaired_concat :
+  let v := mkV2 repaired true false in
+  let st0 := [(fresh_o (rows wit_d0), rows wit_d0)] in
+  let ops := [SRange 0 0 1 false; SSplitPieces 0 Qchalf; SConcat 2 1; SShift 3 (AScalar 1) false; SRevert 3] in
+  Forall Tracked st0 /\ hist_adm v st0 ops /\
+  match nth_error (trun v st0 ops) 3 with
+  | Some (d, R) => scaled (base d) = false /\ strip (rows (base d)) = strip (skipn 2 (rows wit_d0) ++ firstn 2 (rows wit_d0)) /\ strip R = strip (rows (base d))
+  | None => False
+  end.
+Proof.
+  cbv zeta. split.
+  - constructor; [|constructor]. apply fresh_tracked; [repeat constructor | intros _; vm_compute; discriminate].
+  - split.
+    + cbn [hist_adm]. split; [split; exact I|]. split; [split; exact I|]. split.
+      * split; [exact I|]. right. right. vm_compute. reflexivity.
+      * split; [split; exact I|]. split; [split; exact I | exact I].
+    + vm_compute. repeat split; reflexivity.
 Qed.
